@@ -169,10 +169,6 @@ def isError : ArgsOut → Bool
   | .typeError | .valueError | .indexError => true
   | _ => false
 
-def isPopOp : ArgsOp → Bool
-  | .pop _ => true
-  | _ => false
-
 def isExtendOp : ArgsOp → Bool
   | .extend _ => true
   | _ => false
